@@ -61,6 +61,12 @@ def spec_hash():
     return tree_hash([os.path.join(VERIF, "spec"), os.path.join(VERIF, "lib", "tlcrun.py")], exts={".tla", ".py"})
 
 
+def canon(constants):
+    """order-independent, process-independent rendering of a constants dict (sets of strings have no stable str())"""
+    return sorted((k, sorted(map(str, v)) if isinstance(v, (set, frozenset, list, tuple)) else str(v))
+                  for k, v in constants.items())
+
+
 def cache_get(key):
     p = os.path.join(CACHE, key + ".json")
     if os.path.exists(p) and not os.environ.get("VERIF_NOCACHE"):
@@ -197,7 +203,7 @@ def load_runs(parts):
 def model_check(name, module, constants, invariants, view="view", deadlock=False, workers=8, timeout=1500,
                 spec="Spec", properties=()):
     key = "e1_%s_%s" % (name, hashlib.sha256(json.dumps(
-        [spec_hash(), module, sorted((k, str(v)) for k, v in constants.items()), list(invariants), view, deadlock,
+        [spec_hash(), module, canon(constants), list(invariants), view, deadlock,
          spec, list(properties)], sort_keys=True).encode()).hexdigest()[:16])
     c = cache_get(key)
     if c:
@@ -228,7 +234,7 @@ def generate(name, module, constants, mode, n=0, depth=200, seed=1, timeout=900,
     """Behaviours of the model as harness scenarios: mode 'all' (every behaviour, history variable makes
     each path a state) or 'sim' (TLC -simulate).  Returns list of h records {sched, prog}."""
     key = "gen_%s_%s" % (name, hashlib.sha256(json.dumps(
-        [spec_hash(), module, sorted((k, str(v)) for k, v in constants.items()), mode, n, depth, seed, spec, tag, inv],
+        [spec_hash(), module, canon(constants), mode, n, depth, seed, spec, tag, inv],
         sort_keys=True).encode()).hexdigest()[:16])
     c = cache_get(key)
     if c:
@@ -289,7 +295,8 @@ def scenario_of(hrec, sid, kind, ln, nthreads, extra=None):
           "sched": hrec["sched"], "policy": "rr", "post": steps_of(prog_of(hrec, 0))}
     if not sc["post"]:
         # standard epilogue of generated behaviours: make the final shared state observable
-        sc["post"] = [{"op": "hasmore"}, {"op": "next"}, {"op": "intoseq"}]
+        sc["post"] = [[{"op": "hasmore"}, {"op": "next"}, {"op": "intoseq"}], [{"op": "intoseq"}],
+                      [{"op": "len"}, {"op": "intoseq", "take": 1}], [{"op": "chunk", "n": 2}, {"op": "hasmore"}]][sid % 4]
     if extra:
         sc.update(extra)
     return sc
